@@ -11,8 +11,8 @@ Definition impl_fixes : fixes :=
   {| fx1 := true; fx2 := true; fx3 := true; fx4 := true; fx5 := true; fx6 := true; fx7 := true; fx8 := true;
      fx9 := true;     (* C19-F9 repaired by fix: commit b37641c *)
      fx10 := true;    (* C19-F10 repaired by fix: commit 9709c71 *)
-     fx12 := false;   (* C19-F12 is open: fixes/C19-F12.diff *)
-     fx13 := false;   (* C19-F13 is open: fixes/C19-F13.diff *)
+     fx12 := true;     (* C19-F12 repaired by fix: commit 7bff27d *)
+     fx13 := true;     (* C19-F13 repaired by fix: commit e0c0f15 *)
      fx18 := true |}.
 
 Definition memn (l : list nat) (n : nat) : bool := existsb (Nat.eqb n) l.
